@@ -69,7 +69,27 @@ def pick_entry(rng: random.Random, corp: List[Dict[str, Any]], rule_names: List[
     return text, origin_rule(entry, rule_names)
 
 
+def with_blank_runs(rng: random.Random, text: str) -> str:
+    """Insert a run of 3-5 blank lines in front of a statement inside an indented
+    block (layout passes must not eat the indentation that follows such a run)."""
+    lines = text.split("\n")
+    cand = [i for i in range(1, len(lines)) if lines[i].startswith("    ") and lines[i].strip() and lines[i - 1].strip()
+            and not lines[i - 1].rstrip().endswith((":", ",", "(", "[", "{", "\\")) and not lines[i].lstrip().startswith(("elif", "else", "except", "finally", ")", "]", "}"))]
+    if not cand:
+        return text
+    i = rng.choice(cand)
+    blank = rng.choice(["", "", "    "])
+    new = "\n".join(lines[:i] + [blank] * rng.randint(3, 5) + lines[i:])
+    try:
+        ast.parse(new)
+    except (SyntaxError, ValueError):
+        return text
+    return new
+
+
 def pick_input(rng: random.Random, corp: List[Dict[str, Any]], entry: Optional[Dict[str, Any]] = None) -> str:
+    if entry is None and rng.random() < 0.1:
+        return with_blank_runs(rng, pick_input(rng, corp, rng.choice(corp)))
     r = rng.random()
     base = (entry or rng.choice(corp))["source"]
     if r < 0.62:
